@@ -205,7 +205,7 @@ def _install_failpoint(fp):
             p = os.fspath(file) if not isinstance(file, int) else ""
         except TypeError:
             p = ""
-        if isinstance(p, str) and p.endswith(fp["suffix"]) and any(c in mode for c in "wa+"):
+        if isinstance(p, str) and (p.endswith(fp["suffix"]) or p.endswith(fp["suffix"] + ".tmp")) and any(c in mode for c in "wa+"):
             state["n"] += 1
             if state["n"] == fp.get("nth", 1):
                 after = fp["after"]
